@@ -19,6 +19,11 @@ var c04Containers = map[string]bool{
 	"Type_Relation.AttrDefs": true, "Type_Tuple.AttrDefs": true,
 }
 
+// payloads of declarations that can be re-opened in another block or file
+var c04Reopenable = map[string]bool{
+	"Module": true, "Application": true, "Endpoint": true, "Type_Relation": true, "Type_Tuple": true, "Type_Enum": true, "Type_OneOf": true,
+}
+
 // element maps whose entries are keyed declarations
 var c04ElementMaps = map[string]bool{
 	"Module.Apps": true, "Application.Types": true, "Application.Endpoints": true, "Application.Views": true,
@@ -197,6 +202,8 @@ func checkC04(c *Check) {
 	}
 	c.Counts["container_initialisations"] = nC
 	c.Counts["element_creations"] = nE
+	c04KeepOnReopen(c)
+	c04NoDropOnAbsent(c)
 	c04OneListener(c)
 	c04TypeReopen(c)
 }
@@ -359,4 +366,267 @@ func c04TypeReopen(c *Check) {
 	if n == 0 {
 		c.Undecidedf("TYPE-REOPEN", "type callback", "-", "no callback creating relation/tuple types from the listener's field map found")
 	}
+}
+
+// c04KeepOnReopen: a listener callback that runs once per block must not wipe a
+// member of a re-opened declaration. Every store of a value that can be nil
+// (a nil constant, a phi with a nil edge, the result of a repository function
+// with a `return nil`) into a pointer/map/slice field of a model object that
+// was not created in the same callback has to be control-dependent on the value
+// being non-nil or on the location being nil. Otherwise the block processed
+// last erases what an earlier block (or imported file) declared.
+func c04KeepOnReopen(c *Check) {
+	p := c.P
+	pk := p.Pkg(parsePkg)
+	n := 0
+	mayNil := func(v ssa.Value) (bool, string) {
+		seen := map[ssa.Value]bool{}
+		var rec func(v ssa.Value, d int) (bool, string)
+		rec = func(v ssa.Value, d int) (bool, string) {
+			if v == nil || seen[v] || d > 6 {
+				return false, ""
+			}
+			seen[v] = true
+			switch x := v.(type) {
+			case *ssa.Const:
+				if x.IsNil() {
+					return true, "nil"
+				}
+			case *ssa.Phi:
+				for _, e := range x.Edges {
+					if ok, why := rec(e, d+1); ok {
+						return true, why
+					}
+				}
+			case *ssa.Call:
+				sc := x.Call.StaticCallee()
+				if sc == nil || !isRepoFn(sc) || fnPkgPath(sc) != pk.PkgPath {
+					return false, ""
+				}
+				for _, b := range sc.Blocks {
+					if r, ok := b.Instrs[len(b.Instrs)-1].(*ssa.Return); ok && len(r.Results) == 1 {
+						if cv, ok := r.Results[0].(*ssa.Const); ok && cv.IsNil() {
+							return true, "the result of " + sc.Name() + ", which has a `return nil`"
+						}
+					}
+				}
+			case *ssa.ChangeType:
+				return rec(x.X, d+1)
+			}
+			return false, ""
+		}
+		return rec(v, 0)
+	}
+	for _, f := range p.RepoFuncs() {
+		if fnPkgPath(f) != pk.PkgPath || !strings.HasSuffix(p.fnFile(f), "/listener_impl.go") {
+			continue
+		}
+		if !(strings.HasPrefix(f.Name(), "Enter") || strings.HasPrefix(f.Name(), "Exit")) {
+			continue
+		}
+		eachInstr(f, func(_ *ssa.BasicBlock, i ssa.Instruction) {
+			st, ok := i.(*ssa.Store)
+			if !ok {
+				return
+			}
+			own, fld, _, ok := fieldOfAddr(st.Addr)
+			if !ok || own == nil || own.Obj().Pkg() == nil || own.Obj().Pkg().Path() != syslPkg {
+				return
+			}
+			switch st.Val.Type().Underlying().(type) {
+			case *types.Pointer, *types.Map, *types.Slice:
+			default:
+				return
+			}
+			if baseFresh(st.Addr) {
+				return
+			}
+			if !c04Reopenable[own.Obj().Name()] {
+				return
+			}
+			isNil, why := mayNil(st.Val)
+			if !isNil {
+				return
+			}
+			n++
+			name := own.Obj().Name() + "." + fld
+			key := fmt.Sprintf("%s|%s may be set to nil", fnName(f), name)
+			guarded := absenceGuarded(f, st.Addr, st) || valueNonNilGuarded(st.Val, st) || emptinessGuarded(f, st.Addr, st)
+			c.Cond(guarded, "KEEP-ON-REOPEN", key, p.pos(st.Pos()),
+				"the store is made only when the value is non-nil or the location is still nil",
+				fmt.Sprintf("%s of an existing declaration is overwritten with %s on every block: a block (or imported file) processed later erases what an earlier one declared", name, why))
+		})
+	}
+	c.Counts["possibly_nil_member_stores"] = n
+}
+
+// valueNonNilGuarded: the store's block is dominated by the non-nil outcome of a
+// nil test of the stored value.
+func valueNonNilGuarded(v ssa.Value, at ssa.Instruction) bool {
+	ok := false
+	if v.Referrers() == nil {
+		return false
+	}
+	for _, r := range *v.Referrers() {
+		bin, isB := r.(*ssa.BinOp)
+		if !isB || (bin.Op != token.EQL && bin.Op != token.NEQ) {
+			continue
+		}
+		if !isNilConst(bin.X) && !isNilConst(bin.Y) {
+			continue
+		}
+		for _, br := range branchesOn(bin) {
+			nn := br.FalseSucc
+			if bin.Op == token.NEQ {
+				nn = br.TrueSucc
+			}
+			if (nn == at.Block() || nn.Dominates(at.Block())) && len(nn.Preds) == 1 {
+				ok = true
+			}
+		}
+	}
+	return ok
+}
+
+// emptinessGuarded: `if len(x.F) == 0 { x.F = nil }` — normalising an empty
+// container loses nothing.
+func emptinessGuarded(f *ssa.Function, addr ssa.Value, at ssa.Instruction) bool {
+	key := "*" + exprKey(addr, 0)
+	ok := false
+	eachInstr(f, func(_ *ssa.BasicBlock, i ssa.Instruction) {
+		bin, isB := i.(*ssa.BinOp)
+		if !isB || (bin.Op != token.EQL && bin.Op != token.NEQ) {
+			return
+		}
+		isLen := func(v ssa.Value) bool {
+			cl, ok := v.(*ssa.Call)
+			if !ok {
+				return false
+			}
+			b, ok := cl.Call.Value.(*ssa.Builtin)
+			return ok && b.Name() == "len" && exprKey(cl.Call.Args[0], 0) == key
+		}
+		var k ssa.Value
+		switch {
+		case isLen(bin.X):
+			k = bin.Y
+		case isLen(bin.Y):
+			k = bin.X
+		default:
+			return
+		}
+		if n, isK := constInt(k); !isK || n != 0 {
+			return
+		}
+		for _, br := range branchesOn(bin) {
+			empty := br.TrueSucc
+			if bin.Op == token.NEQ {
+				empty = br.FalseSucc
+			}
+			if (empty == at.Block() || empty.Dominates(at.Block())) && len(empty.Preds) == 1 {
+				ok = true
+			}
+		}
+	})
+	return ok
+}
+
+// c04NoDropOnAbsent: a declaration may arrive before the block that declares
+// the thing it refers to (the other block can sit later in the file or in an
+// imported file). When a callback looks a keyed declaration up in
+// Apps/Endpoints/Types/Views and finds nothing, it has to create the entry (the
+// CREATE-IF-ABSENT idiom) or carry on; returning from the callback on the
+// absent outcome silently drops what this block declares, and whether it is
+// dropped then depends on the order in which blocks are processed.
+func c04NoDropOnAbsent(c *Check) {
+	p := c.P
+	pk := p.Pkg(parsePkg)
+	n := 0
+	for _, f := range p.RepoFuncs() {
+		if fnPkgPath(f) != pk.PkgPath || !strings.HasSuffix(p.fnFile(f), "/listener_impl.go") {
+			continue
+		}
+		if !(strings.HasPrefix(f.Name(), "Enter") || strings.HasPrefix(f.Name(), "Exit")) {
+			continue
+		}
+		eachInstr(f, func(_ *ssa.BasicBlock, i ssa.Instruction) {
+			lk, ok := i.(*ssa.Lookup)
+			if !ok {
+				return
+			}
+			own, fld, _, ok := loadedField(lk.X)
+			if !ok {
+				if u, isU := unspill(lk.X).(*ssa.UnOp); isU {
+					own, fld, _, ok = loadedField(u)
+				}
+			}
+			if !ok || own == nil || own.Obj().Pkg() == nil || own.Obj().Pkg().Path() != syslPkg {
+				return
+			}
+			name := own.Obj().Name() + "." + fld
+			if !c04ElementMaps[name] {
+				return
+			}
+			// nil tests of the looked-up element (directly, or through a phi/cell)
+			var tests []*ssa.BinOp
+			seen := map[ssa.Value]bool{}
+			var walk func(v ssa.Value, d int)
+			walk = func(v ssa.Value, d int) {
+				if d > 4 || seen[v] || v.Referrers() == nil {
+					return
+				}
+				seen[v] = true
+				for _, r := range *v.Referrers() {
+					switch y := r.(type) {
+					case *ssa.Extract:
+						if y.Index == 0 {
+							walk(y, d+1)
+						}
+					case *ssa.BinOp:
+						if (y.Op == token.EQL || y.Op == token.NEQ) && (isNilConst(y.X) || isNilConst(y.Y)) {
+							tests = append(tests, y)
+						}
+					case *ssa.Phi:
+						walk(y, d+1)
+					}
+				}
+			}
+			walk(lk, 0)
+			if len(tests) == 0 {
+				return
+			}
+			n++
+			key := fmt.Sprintf("%s|absent %s entry", fnName(f), name)
+			bad := ""
+			for _, bin := range tests {
+				for _, br := range branchesOn(bin) {
+					nilSucc := br.TrueSucc
+					if bin.Op == token.NEQ {
+						nilSucc = br.FalseSucc
+					}
+					// the absent outcome goes straight to a return: nothing is created
+					if len(nilSucc.Instrs) > 0 {
+						if _, isRet := nilSucc.Instrs[len(nilSucc.Instrs)-1].(*ssa.Return); isRet && len(nilSucc.Preds) == 1 {
+							creates := false
+							for _, j := range nilSucc.Instrs {
+								switch j.(type) {
+								case *ssa.MapUpdate, *ssa.Store, *ssa.Panic:
+									creates = true
+								case ssa.CallInstruction:
+									creates = true // reports, logs or delegates
+								}
+							}
+							if !creates {
+								bad = p.pos(bin.Pos())
+							}
+						}
+					}
+				}
+			}
+			c.Cond(bad == "", "NO-DROP-ON-ABSENT", key, p.pos(lk.Pos()),
+				"no path leaves the callback on the absent outcome without creating, reporting or carrying on",
+				fmt.Sprintf("when the %s entry does not exist yet the callback returns at once (test at %s): what this block declares is dropped unless the other block happened to be processed first", name, bad))
+		})
+	}
+	c.Counts["declaration_lookups_with_absent_test"] = n
 }
